@@ -565,9 +565,15 @@ impl Sirm {
     ) -> ControlResult<usize> {
         let si_info: u32 = self.read_register(device, sirm::SI_INFO)?;
         // Upper 8 bits specifies the exp of the alignment.
-        1_usize.checked_shl(si_info >> 24_i32).ok_or_else(|| {
-            ControlError::InvalidDevice("payload size alignment of the device is too large".into())
-        })
+        let exp = si_info >> 24_i32;
+        // The payload related sizes of SIRM are 32 bit registers, so they can't be aligned to 2^32
+        // or more.
+        if exp >= 32 {
+            return Err(ControlError::InvalidDevice(
+                "payload size alignment of the device is too large".into(),
+            ));
+        }
+        Ok(1 << exp)
     }
 
     /// Enables stream.
